@@ -446,7 +446,7 @@ def _explore(repo, tier: str, pid: str):
     if os.environ.get('SA_SERIAL') == '1':
         res = [_task(x) for x in work]
     else:
-        with ProcessPoolExecutor(max_workers=min(16, len(work))) as pool:
+        with ProcessPoolExecutor(max_workers=__import__('sa.rules.common', fromlist=['pool_size']).pool_size(len(work))) as pool:
             res = list(pool.map(_task, work, chunksize=1))
     items, seen = [], set()
     tot = {'nodes': 0, 'accepted': 0, 'refusals': 0, 'ends': 0}
